@@ -47,7 +47,7 @@ Print Assumptions C16_blocked_writers_drain.
    queue with its capacity, the dirty-limit wait, failing merges and failing
    lower-level updates.  Theorems are over every schedule (every reachable state).
    --------------------------------------------------------------------------- *)
-From Moss Require Import Sync2 Sync2Facts.
+From Moss Require Import Sync2 Sync2Facts Sync2ProgressA Sync2Progress Sync2Run Sync2RunFacts.
 Close Scope N_scope.
 Open Scope nat_scope.
 
@@ -109,16 +109,32 @@ Theorem C16_fine_open_collection_drains :
 Proof. exact open_drain. Qed.
 Print Assumptions C16_fine_open_collection_drains.
 
-(* Close drain, PARTIAL: proved while the merger has not yet exited; the persister's and the
-   closer's last (straight-line) steps after the merger is gone are not covered.  Full
-   statement:  inv s -> z_closed s = true -> 0 < mu_c s -> exists l s', bg l = true /\
-   step c s l = Some s' /\ mu_c s' < mu_c s. *)
-Theorem C16_fine_close_progresses_partial :
+(* Close drain: in every invariant state of a closing collection that is not yet at rest some
+   background step decreases the measure (the merger may run one more cycle: a pending
+   hand-over is retried), hence a background schedule no longer than the measure after which
+   merger, persister and Close are done and no caller is in flight *)
+Theorem C16_fine_close_progresses :
   forall c, 1 <= c_cap c -> 1 <= c_qcap c -> forall s,
-    inv c s -> z_closed s = true -> z_mp s <> MDone ->
+    inv c s -> z_closed s = true -> 0 < mu_c s ->
     exists l s', bg l = true /\ step c s l = Some s' /\ mu_c s' < mu_c s.
-Proof. exact close_step_partial. Qed.
-Print Assumptions C16_fine_close_progresses_partial.
+Proof. exact close_step. Qed.
+Print Assumptions C16_fine_close_progresses.
+
+Theorem C16_fine_close_drains :
+  forall c, 1 <= c_cap c -> 1 <= c_qcap c -> forall n s,
+    inv c s -> z_closed s = true -> mu_c s <= n ->
+    exists ls s', Forall (fun l => bg l = true) ls /\ length ls <= mu_c s /\
+                  run c s ls = Some s' /\ at_rest s' /\ inv c s'.
+Proof. exact close_drain. Qed.
+Print Assumptions C16_fine_close_drains.
+
+(* every state the lock-step driver (Sync2Run.apply_label: the label's outside or gated step,
+   then every free step until none is enabled) visits is a reachable state of the model:
+   the theorems above apply to what the real code is compared with *)
+Theorem C16_fine_lockstep_states_are_reachable :
+  forall c s l s', apply_label c s l = Some s' -> exists ls, run c s ls = Some s'.
+Proof. exact apply_label_is_run. Qed.
+Print Assumptions C16_fine_lockstep_states_are_reachable.
 
 (* F36 (repaired, 7ee2acf): with the pinned NotifyMerger (no stop case: Mut6) a synchronous
    notification issued after Close waits for ever in every continuation *)
